@@ -1,8 +1,115 @@
 /-
-  C18 — property theorems (only `theorem C18_*` statements and non-vacuity examples live here;
-  helper lemmas go to CedarGoProofs/Lemmas/).
+  C18 — Streaming decode is chunking-invariant and source positions are exact.
+  Only `theorem C18_*` statements and non-vacuity examples live here; helper lemmas are in
+  CedarGoProofs/Lemmas/C18*.lean.
+
+  Model: CedarGo/Model/Text/Scanner.lean (`scan bufLen reader` = `TokenizeReader` with the buffered
+  scanner of cedar_tokenize.go over an abstract `io.Reader`), CedarGo/Model/Text/Lexer.lean
+  (`rawTokens` / `tokensWithPos` = the pure lexer on the whole byte string, positions given by `posOf`).
+  A reader (`Reader`) is a list of chunks (possibly empty) with a final status: EOF, EOF together with
+  the last data, or a failure.  Not modelled: a reader that returns (0, nil) for ever.
 -/
-import CedarGo.Model.Fold
+import CedarGoProofs.Lemmas.C18Fuel
+import CedarGo.Generated.Facts
 namespace CedarGo
+open CedarGo.Text
+
+/-- `next` refines rune-by-rune decoding of the concatenated bytes: for every reader (any chunking,
+    empty chunks, data-with-EOF, failing or not) and every buffer size ≥ utf8.UTFMax, the sequence of
+    (rune, width, source offset) produced by any number of successive `next()` calls is the sequence
+    obtained by decoding the delivered bytes as one byte string (then EOF for ever). -/
+theorem C18_next_refines (bufLen : Nat) (hb : 4 ≤ bufLen) (rd : Reader) (n : Nat) :
+    (ScanState.init bufLen rd).nextStream bufLen n = runeStream n rd.bytes 0 :=
+  nextStream_eq_runeStream hb n (Rel.init rd)
+
+example : (ScanState.init 4 ⟨[[0x61, 0xE2], [], [0x82, 0xAC, 0x0A]], .eofData⟩).nextStream 4 4
+    = [(0x61, 1, 1), (0x20AC, 3, 4), (10, 1, 5), (-1, 0, 5)] := by decide +kernel
+
+/-- A reader that fails (after any number of bytes, under any chunking) yields an error, never a
+    (truncated) token list. -/
+theorem C18_reader_failure_reported (bufLen : Nat) (hb : 4 ≤ bufLen) (chunks : List (List UInt8)) :
+    ∃ e, scan bufLen ⟨chunks, .fail⟩ = .error e := by
+  rw [scan_eq_incTokens hb]
+  exact incTokens_fails _
+
+example : scan 4 ⟨[[0x61], [0x20]], .fail⟩ = .error .read := by decide +kernel
+
+/-- Zero-length reads are harmless: two readers that deliver the same non-empty chunks in the same
+    order (empty chunks inserted anywhere) with the same final status give the same result. -/
+theorem C18_zero_reads_harmless (bufLen : Nat) (hb : 4 ≤ bufLen) (rd rd' : Reader)
+    (hc : rd'.chunks.filter (fun c => !c.isEmpty) = rd.chunks.filter (fun c => !c.isEmpty))
+    (hf : rd'.final = rd.final) :
+    scan bufLen rd' = scan bufLen rd := by
+  have hbytes : rd'.bytes = rd.bytes := by
+    unfold Reader.bytes
+    rw [← flatten_filter_nonempty rd'.chunks, ← flatten_filter_nonempty rd.chunks, hc]
+  rw [scan_eq_incTokens hb, scan_eq_incTokens hb, hbytes, hf]
+
+example : scan 4 ⟨[[], [0x61], [], [], [0x62], []], .eof⟩ = scan 4 ⟨[[0x61], [0x62]], .eof⟩ := by decide +kernel
+
+/-- The buffered scanner under ANY reader = the pure lexer on the delivered bytes (tokens, raw texts and
+    positions, or the same error kind); `fails` tells the pure lexer that the input ends with a reader
+    failure instead of EOF. -/
+theorem C18_scan_eq_lexer (bufLen : Nat) (hb : 4 ≤ bufLen) (rd : Reader) :
+    scan bufLen rd = rawTokens rd.bytes (rd.final == .fail) := by
+  rw [scan_eq_incTokens hb, incTokens_eq_rawTokens]
+
+/-- Chunking invariance: for every byte string, every two chunk schedules of it (any chunk sizes, empty
+    chunks, data-with-EOF or plain EOF) and every two buffer sizes ≥ utf8.UTFMax, the scanner yields the same
+    token list or the same error, namely that of the pure lexer on the whole byte string. -/
+theorem C18_tokens_chunking_invariant (bytes : List UInt8) (n₁ n₂ : Nat) (h₁ : 4 ≤ n₁) (h₂ : 4 ≤ n₂)
+    (rd₁ rd₂ : Reader) (hb₁ : rd₁.bytes = bytes) (hb₂ : rd₂.bytes = bytes)
+    (hf₁ : rd₁.final ≠ .fail) (hf₂ : rd₂.final ≠ .fail) :
+    scan n₁ rd₁ = rawTokens bytes ∧ scan n₂ rd₂ = rawTokens bytes ∧
+    scanTokens n₁ rd₁ = tokensWithPos bytes ∧ scanTokens n₂ rd₂ = tokensWithPos bytes := by
+  have e₁ : (rd₁.final == .fail) = false := by simpa using hf₁
+  have e₂ : (rd₂.final == .fail) = false := by simpa using hf₂
+  have s₁ : scan n₁ rd₁ = rawTokens bytes := by rw [C18_scan_eq_lexer n₁ h₁, hb₁, e₁]
+  have s₂ : scan n₂ rd₂ = rawTokens bytes := by rw [C18_scan_eq_lexer n₂ h₂, hb₂, e₂]
+  exact ⟨s₁, s₂, by simp only [scanTokens, tokensWithPos, s₁], by simp only [scanTokens, tokensWithPos, s₂]⟩
+
+example : scan 4 ⟨[[0x22, 0xE2], [0x82], [], [0xAC, 0x22, 0x0A, 0x3D, 0x3D]], .eofData⟩
+    = scan 1024 ⟨[[0x22, 0xE2, 0x82, 0xAC, 0x22, 0x0A, 0x3D, 0x3D]], .eof⟩ := by decide +kernel
+example : rawTokens [0x22, 0xE2, 0x82, 0xAC, 0x22, 0x0A, 0x3D, 0x3D]
+    = .ok [⟨.string, ⟨0, 1, 1⟩, [0x22, 0xE2, 0x82, 0xAC, 0x22]⟩, ⟨.operator, ⟨6, 2, 1⟩, [0x3D, 0x3D]⟩, ⟨.eof, ⟨8, 2, 3⟩, []⟩] := by
+  decide +kernel
+
+/-- Positions are exact: every token the scanner produces for a non-empty input (under any reader and
+    buffer size, the final EOF token included) has `Pos = posOf bytes off` where `off` is the offset of its
+    first byte, i.e. (off, 1 + number of '\n' before off, 1 + number of characters since the last '\n'),
+    and its text is the slice of the input that starts at `off`. -/
+theorem C18_position_exact (bufLen : Nat) (hb : 4 ≤ bufLen) (rd : Reader) (hne : rd.bytes ≠ [])
+    (ts : List RawTok) (h : scan bufLen rd = .ok ts) :
+    ∀ t ∈ ts, t.pos = posOf rd.bytes t.pos.offset ∧
+      (rd.bytes.drop t.pos.offset).take t.text.length = t.text := by
+  rw [C18_scan_eq_lexer bufLen hb] at h
+  exact rawTokens_positions _ _ hne ts h
+
+example : posOf [0x61, 0x0A, 0xC3, 0xA9, 0x62] 4 = ⟨4, 2, 2⟩ := by decide +kernel
+
+/-- The one deviation from `posOf`: for the EMPTY input the only token (EOF) is reported at line 0,
+    column 0 (Go: `s.column == 0` branch of `nextToken` at the very beginning of the source);
+    `posOf [] 0` would be line 1, column 1.  No policy starts at this token. -/
+theorem C18_position_empty_input (bufLen : Nat) (hb : 4 ≤ bufLen) (rd : Reader) (he : rd.bytes = [])
+    (hf : rd.final ≠ .fail) : scan bufLen rd = .ok [⟨.eof, ⟨0, 0, 0⟩, []⟩] := by
+  have e : (rd.final == .fail) = false := by simpa using hf
+  rw [C18_scan_eq_lexer bufLen hb, he, e]
+  decide +kernel
+
+/-- The fuel the model gives its loops (document length + 2 for every scanning loop, the reader's chunk
+    measure + 1 for the refill loop of `next`) is never exhausted: neither the pure lexer nor the buffered
+    scanner (any reader, any buffer size ≥ 4) ever returns the model's out-of-fuel marker.  Go has no fuel;
+    this is what allows the artefact to be ignored. -/
+theorem C18_fuel_suffices (bufLen : Nat) (hb : 4 ≤ bufLen) (rd : Reader) :
+    scan bufLen rd ≠ .error .fuel ∧ rawTokens rd.bytes ≠ .error .fuel := by
+  refine ⟨?_, rawTokens_ne_fuel _ _⟩
+  rw [C18_scan_eq_lexer bufLen hb]
+  exact rawTokens_ne_fuel _ _
+
+/-- Tie to the source: the buffer size of the Go scanner (regenerated from cedar_tokenize.go on every
+    check) satisfies the hypothesis `4 ≤ bufLen` (utf8.UTFMax) of the theorems above. -/
+theorem C18_go_bufLen_admissible :
+    (Facts.intConsts.lookup "tokenize.bufLen").any (fun n => decide (4 ≤ n)) = true := by
+  decide +kernel
 
 end CedarGo
